@@ -147,7 +147,7 @@ class BooleanOption(ConfigOption[bool]):
 class IntegerOption(ConfigOption[int]):
     @classmethod
     def parse(cls: "type[IntegerOption]", data: object, source_path: Path) -> int:
-        if isinstance(data, int):
+        if isinstance(data, int) and not isinstance(data, bool):
             return data
         raise InvalidConfigOption.from_parser(cls, "int", data)
 
